@@ -60,6 +60,7 @@ CanDiffer(e) ==
 AvNone      == [k |-> "none"]
 AvStr(syms) == [k |-> "str", syms |-> syms]         \* written "…" ; syms as in Text!SymCp
 AvExpr(e)   == [k |-> "expr", e |-> e]
+AvElem(el)  == [k |-> "elem", el |-> el]            \* attr=<el/> (a JSX element as the value, without braces)
 
 Plain(name, val)    == [k |-> "plain", name |-> name, val |-> val]
 NsAttr(ns, name, v) == [k |-> "ns", ns |-> ns, name |-> name, val |-> v]
